@@ -10,7 +10,7 @@ from ..cfg import Node
 from ..loader import AnalysisError, ClassInfo, FuncInfo, Module, Repo, dotted, norm, walk_no_nested
 from ..report import Ctx
 from ..dataflow import bound_in_enclosing_comp
-from ._c18_helpers import raised_class, EXHAUSTING, FRESH, INPLACE_OPERATOR, STOPPING_EARLY, EmptyRun, Flow, Unit, handler_catches, mangle, shared, why_conditional
+from ._c18_helpers import raised_class, ARG, CannotFollow, Cont, SingleObjectRun, EXHAUSTING, FRESH, INPLACE_OPERATOR, STOPPING_EARLY, EmptyRun, Flow, Unit, handler_catches, mangle, shared, why_conditional
 
 LEVEL_TEXT = (
     "Static decision of structural clauses of C18 on /repo's current source (werkzeug/local.py): (R18.1) copy-on-write - "
@@ -43,7 +43,18 @@ LEVEL_TEXT = (
     "what LocalManager.__init__ stores contains the locals it was given on every path where some were given (through local names, "
     "conditional expressions, or a container filled afterwards by append/extend/+=) and is a container materialised in the "
     "constructor (literal, list()/tuple(), comprehension, [*x]) - never the caller's iterable itself, which may be a one-shot "
-    "iterator that the first cleanup() exhausts; "
+    "iterator that the first cleanup() exhausts; given ONE managed local instead of a collection, the constructor stores a container "
+    "holding that very object and nothing obtained by iterating it - decided per class of managed local (the module's classes with "
+    "a __release_local__) by following the constructor statement by statement with the argument bound to one object of the class, "
+    "the facts about it taken from the class table: isinstance against its classes (collections.abc / typing ABCs by the methods "
+    "they require), hasattr / callable by the names the classes define, truthiness, and iterability - a class that defines __iter__ "
+    "(Local does: it yields the (name, value) pairs of the current context) is iterated successfully and yields its items, not "
+    "itself, any other class raises TypeError, which goes to the except clause that covers it; so a constructor that tells a "
+    "single local from a collection by duck typing (try list()/iter()/extend/yield from first, hasattr(x, '__iter__'), an "
+    "Iterable test) is a violation exactly when a managed class is iterable, however it is spelled (branches, conditional "
+    "expressions, local names, containers filled afterwards, helpers and generators of the module); a run that raises rejects the "
+    "argument loudly and is not judged (today a single LocalStack is rejected with TypeError), a constructor that cannot be "
+    "followed is ANALYSIS-ERROR; "
     "(R18.3) LocalProxy.__init__ performs no lookup on the proxied object (it is only type-tested and stored), every installed "
     "_get_current_object variant reads it at call time and keeps no state, _ProxyLookup.__get__ calls _get_current_object on "
     "every instance access and stores nothing, Local()/LocalStack() hand the local itself to the proxy; (R18.4) with an empty "
@@ -267,7 +278,7 @@ def run(ctx: Ctx) -> None:
     mod = repo.module(LOCAL)
     for rid, text in {
         "R18.1": "copy-on-write: no object that may be the current ContextVar payload (result of <storage>.get) is mutated in place on any path, and every <storage>.set(v) binds an object created in the same call",
-        "R18.2": "release rebinds the ContextVar to an empty container of the payload's kind on every path; release_local and LocalManager.cleanup release every managed local in the calling context, on every path and in every iteration (never as a short-circuited operand, under a test, or through a consumer that stops early); LocalManager.__init__ stores every local it was given, in a container materialised in the constructor (never the caller's possibly one-shot iterable)",
+        "R18.2": "release rebinds the ContextVar to an empty container of the payload's kind on every path; release_local and LocalManager.cleanup release every managed local in the calling context, on every path and in every iteration (never as a short-circuited operand, under a test, or through a consumer that stops early); LocalManager.__init__ stores every local it was given, in a container materialised in the constructor (never the caller's possibly one-shot iterable), and wraps a single local instead of iterating it (a Local is iterable)",
         "R18.3": "late binding: LocalProxy.__init__ only type-tests and stores the proxied object, each _get_current_object variant reads it at call time and keeps no state, _ProxyLookup.__get__ resolves on every instance access and stores nothing",
         "R18.4": "unbound behaviour: an empty payload reads as AttributeError / None, each proxy variant turns that into RuntimeError, _ProxyLookup.__get__ re-raises it exactly when no fallback is declared, __bool__ falls back to False and __repr__ to a text not derived from the bound object",
         "R18.5": "no other storage: Local/LocalStack instances hold only the ContextVar (__slots__), bound once in __init__; no mutable module-level or class-level container",
@@ -1520,6 +1531,57 @@ def _cleanup(ctx: Ctx, flow: Flow, cu: Unit, attr: str, rl: FuncInfo) -> None:
             ctx.ob("R18.2", "LocalManager.cleanup releases each managed local unconditionally", False, fact, cleanup, node_, key)
 
 
+def _single_local_wrapped(ctx: Ctx, flow: Flow, iu: Unit, init: FuncInfo, lp: str, attr: str, storage) -> None:
+    """LocalManager(<one local>) must manage that local.  Decided per class of managed local (the classes of the module
+    with a __release_local__) by following the constructor with the argument bound to ONE object of the class, the facts
+    about it read off the class table - in particular whether the class is iterable: a Local defines __iter__ (it yields
+    the (name, value) pairs of the current context), so a constructor that tells a single local from a collection of
+    locals by trying to iterate it stores those pairs (usually: nothing) instead of the Local, and cleanup() releases
+    nothing.  On every run that ends normally the stored container must hold the argument itself and nothing obtained by
+    iterating it; a run that raises rejects the argument loudly, which this clause does not judge."""
+    managed = [c for _cn, (c, _slots) in sorted(storage.items()) if RELEASE in c.methods]
+    ctx.floor("R18.2", "classes of managed locals (with __release_local__) the constructor is followed on", len(managed), 2)
+    for k in managed:
+        run = SingleObjectRun(flow, iu, lp, k, attr)
+        how = f"{k.name} defines {'__iter__' if '__iter__' in run.names else '__getitem__'}: iterating it yields its items, not the {k.name}" if run.iterable else f"{k.name} is not iterable (iterating it raises TypeError)"
+        try:
+            outs = run.outcomes()
+        except CannotFollow as e:
+            ctx.error(f"R18.2: LocalManager.__init__ cannot be followed statement by statement on a single {k.name} argument ({e}): cannot decide whether that local is stored or iterated")
+            continue
+        stored = [v for v, exc in outs if exc is None]
+        raised = sorted({exc for _v, exc in outs if exc is not None})
+        bad: list[str] = []
+        unknown = False
+        for v in stored:
+            if isinstance(v, Cont):
+                if "ITEMS" in v.elems:
+                    bad.append(f"stores what iterating the {k.name} yields (its items in the constructing context - usually nothing), not the {k.name}: cleanup() then releases nothing")
+                elif "ARG" not in v.elems and "?" not in v.elems:
+                    bad.append(f"stores a container that does not hold the {k.name}")
+                elif "ARG" not in v.elems:
+                    unknown = True
+            elif v is ARG:
+                bad.append(f"stores the {k.name} itself, not a container of it: cleanup() would iterate the {k.name}")
+            elif isinstance(v, str) and v == "unset":
+                bad.append(f"leaves self.{attr} unset")
+            else:
+                unknown = True
+        if bad and run.undecided:
+            ctx.error(f"R18.2: LocalManager.__init__ on a single {k.name} argument: {bad[0]} - but only beyond the test `{run.undecided[0]}` of the argument, which the class table does not decide: cannot decide whether a {k.name} gets there")
+            continue
+        if unknown and not bad:
+            ctx.error(f"R18.2: LocalManager.__init__ on a single {k.name} argument stores a value the run cannot classify: cannot decide whether that local is kept")
+            continue
+        if not stored and not bad:
+            fact = f"rejected loudly on every run ({', '.join(raised)}); {how}"
+        elif not bad:
+            fact = f"{len(stored)} run(s) end with a container holding the {k.name} itself" + (f", {len(raised)} kind(s) of run raise {', '.join(raised)}" if raised else "") + f"; {how}"
+        else:
+            fact = "; ".join(dict.fromkeys(bad)) + f" ({how})"
+        ctx.ob("R18.2", f"LocalManager.__init__ given one {k.name} (not a collection) manages that {k.name}", not bad, fact, init, init.node, f"single {k.name} is wrapped, not iterated")
+
+
 def _r2(ctx: Ctx, flow: Flow, storage, kinds: dict[str, str]) -> None:
     repo = ctx.repo
     mod = flow.module
@@ -1602,6 +1664,7 @@ def _r2(ctx: Ctx, flow: Flow, storage, kinds: dict[str, str]) -> None:
         ctx.ob("R18.2", f"LocalManager.__init__: `{norm(node)}` stores a container materialised in the constructor", own,
                fact + ("" if own else f": `{lp}` may be a one-shot iterator, exhausted by the first cleanup() so that later cleanups release nothing"), init, node, f"materialises {norm(node)}")
 
+    _single_local_wrapped(ctx, flow, iu, init, lp, attr, storage)
     _cleanup(ctx, flow, flow.unit_of(cleanup), attr, rl)
 
 
